@@ -641,7 +641,7 @@ func (ca *cursorAnalysis) classify(s *CursorSite, v *cellVer, b *ssa.BasicBlock)
 		s.Why = fmt.Sprintf("needs %d bytes of the cell at function entry (no guard in this function)", rel+s.Need)
 		return
 	}
-	if ca.correlatedGuard(v, b) {
+	if ca.correlatedGuard(v, b, s.Need) {
 		s.Class, s.Why = "UNK", "a length test on an earlier state of the cursor holds only on some of the paths that reach this point"
 		return
 	}
@@ -863,7 +863,7 @@ func (ca *cursorAnalysis) region(v *cellVer, out map[*cellVer]bool) {
 // correlatedGuard: some branch condition in the function tests the length of
 // a version in v's region but does not dominate block b, so what it
 // establishes is known only along some paths.
-func (ca *cursorAnalysis) correlatedGuard(v *cellVer, b *ssa.BasicBlock) bool {
+func (ca *cursorAnalysis) correlatedGuard(v *cellVer, b *ssa.BasicBlock, need int) bool {
 	reg := map[*cellVer]bool{}
 	ca.region(v, reg)
 	for _, blk := range ca.fn.Blocks {
@@ -877,6 +877,17 @@ func (ca *cursorAnalysis) correlatedGuard(v *cellVer, b *ssa.BasicBlock) bool {
 		f, ok := ca.lenFactOf(iff.Cond, true)
 		if !ok || f.load == nil || !reg[ca.loadVer[f.load]] {
 			continue
+		}
+		// a constant test too weak to matter: even if it held, after the bytes consumed between
+		// the tested version and this one it would not establish `need`
+		if f.recog && f.sym == nil {
+			k := f.ge
+			if f2, ok2 := ca.lenFactOf(iff.Cond, false); ok2 && f2.recog && f2.sym == nil && f2.ge > k {
+				k = f2.ge
+			}
+			if adv, ok := ca.minAdvance(ca.loadVer[f.load], v, map[*cellVer]bool{}); ok && k-adv < need {
+				continue
+			}
 		}
 		if blk == b || blk.Dominates(b) {
 			// dominating: already used through ownFacts when one of its edges leads here;
@@ -909,4 +920,34 @@ func (ca *cursorAnalysis) correlatedGuard(v *cellVer, b *ssa.BasicBlock) bool {
 		}
 	}
 	return false
+}
+
+// minAdvance: the least number of bytes consumed on any derivation path from
+// version u to version v (constant advances and merges only).
+func (ca *cursorAnalysis) minAdvance(u, v *cellVer, seen map[*cellVer]bool) (int, bool) {
+	if v == u {
+		return 0, true
+	}
+	if v == nil || seen[v] {
+		return 0, false
+	}
+	seen[v] = true
+	defer delete(seen, v)
+	switch v.kind {
+	case "adv":
+		if v.adv < 0 {
+			return 0, false
+		}
+		a, ok := ca.minAdvance(u, v.parent, seen)
+		return a + v.adv, ok
+	case "phi":
+		best, found := 0, false
+		for _, in := range v.ins {
+			if a, ok := ca.minAdvance(u, in, seen); ok && (!found || a < best) {
+				best, found = a, true
+			}
+		}
+		return best, found
+	}
+	return 0, false
 }
